@@ -170,75 +170,7 @@ def run(ctx):
     # ---------------------------------------------------------------- R3
     sw, g, rets, rname = nonfinite_rule(ctx, prog, ci, "C09-R3")
     # ---------------------------------------------------------------- R6
-    ctx.rule("C09-R6", "membership test: the result is an element-wise "
-             "look-up of the queried pixel numbers (healpy.ang2pix at nside "
-             "2**self.maxdepth, nest=True) in the flattened set "
-             "(self.get_demoted()), through numpy.isin / in1d called within "
-             "its contract: no invert=True, no assume_unique=True (the "
-             "queried pixels repeat whenever two positions share a pixel)")
-    from .c08 import _depends_on_call, _resolve_local
-    tests = [c for c in walk_no_nested(sw.node) if isinstance(c, ast.Call)
-             and prog.dotted(prog.modules[sw.module], c.func) in
-             ("numpy.isin", "numpy.in1d")]
-    n6 = 0
-    for c in tests:
-        n6 += 1
-        kws = {k.arg: k.value for k in c.keywords}
-        elem = c.args[0] if c.args else kws.get("element", kws.get("ar1"))
-        test = c.args[1] if len(c.args) > 1 else \
-            kws.get("test_elements", kws.get("ar2"))
-        bad = [k for k in ("assume_unique", "invert")
-               if k in kws and not (isinstance(kws[k], ast.Constant) and
-                                    kws[k].value is False)]
-        if len(c.args) > 2:
-            bad.append("positional assume_unique")
-        ctx.check("C09-R6", sw, "contract of " + norm(c, 60), not bad,
-                  "%s: numpy requires BOTH arrays to be duplicate-free for "
-                  "assume_unique (the queried pixels are not: positions in "
-                  "the same pixel repeat), and invert flips the answer; "
-                  "positions far outside the region are reported inside" %
-                  bad, node=c)
-
-        def from_ang2pix(e, depth=0):
-            if e is None or depth > 6:
-                return None
-            for x in ast.walk(e):
-                if isinstance(x, ast.Call) and prog.dotted(
-                        prog.modules[sw.module], x.func) == "healpy.ang2pix":
-                    return x
-            for x in ast.walk(e):
-                if isinstance(x, ast.Name):
-                    r = _resolve_local(sw.node, x)
-                    if r is not x:
-                        got = from_ang2pix(r, depth + 1)
-                        if got is not None:
-                            return got
-            return None
-        a2p = from_ang2pix(elem)
-        oka = a2p is not None and a2p.args and \
-            norm(a2p.args[0]).replace(" ", "") in (
-                "2**self.maxdepth", "1<<self.maxdepth") and \
-            isinstance(kwarg(a2p, "nest"), ast.Constant) and \
-            kwarg(a2p, "nest").value is True
-        ctx.check("C09-R6", sw, "queried pixels " + (norm(a2p, 70) if a2p
-                                                     else norm(elem)), oka,
-                  "the queried pixel numbers must come from healpy.ang2pix("
-                  "2**self.maxdepth, ..., nest=True): the flattened set "
-                  "holds NESTED pixel numbers of the deepest level",
-                  node=a2p or c)
-        okt = _depends_on_call(sw.node, test, "self", ("get_demoted",))
-        ctx.check("C09-R6", sw, "looked up in " + norm(test, 50), okt,
-                  "the set the pixels are looked up in must be "
-                  "self.get_demoted() (all levels flattened to the deepest)",
-                  node=c)
-        okr = any(isinstance(s_, ast.Assign) and s_.value is c and
-                  norm(s_.targets[0]) == rname
-                  for s_ in walk_no_nested(sw.node)) or \
-            g.stmt[rets[0]].value is c
-        ctx.check("C09-R6", sw, "the look-up is the returned result", okr,
-                  "the value returned by sky_within (%s) is not the "
-                  "result of the look-up" % rname, node=c)
-    ctx.floor("C09-R6", n6, 1, "numpy.isin / in1d look-ups in sky_within")
+    membership_rule(ctx, prog, sw, g, rets, rname, "C09-R6")
     # ---------------------------------------------------------------- R4
     ctx.rule("C09-R4", "radec2sky: scalar fallback on TypeError; the result "
              "is a 2-column array for any number of positions")
@@ -413,3 +345,91 @@ def nonfinite_rule(ctx, prog, ci, rule):
                   node=bad[0] if bad else fi.node)
     ctx.floor(rule, n_prop, 3, "functions on the way to the non-finite mask")
     return sw, g, rets, rname
+
+
+def membership_rule(ctx, prog, sw, g, rets, rname, rule):
+    """the membership answer of sky_within is a look-up in the flattened
+    set (shared by C09-R6, C08-R13, C11-R8)"""
+    ctx.rule(rule, "membership test: the result is an element-wise "
+             "look-up of the queried pixel numbers (healpy.ang2pix at nside "
+             "2**self.maxdepth, nest=True) in the flattened set "
+             "(self.get_demoted()), through numpy.isin / in1d called within "
+             "its contract: no invert=True, no assume_unique=True (the "
+             "queried pixels repeat whenever two positions share a pixel)")
+    from .c08 import _depends_on_call, _resolve_local
+    tests = [c for c in walk_no_nested(sw.node) if isinstance(c, ast.Call)
+             and prog.dotted(prog.modules[sw.module], c.func) in
+             ("numpy.isin", "numpy.in1d")]
+    n6 = 0
+    for c in tests:
+        n6 += 1
+        kws = {k.arg: k.value for k in c.keywords}
+        elem = c.args[0] if c.args else kws.get("element", kws.get("ar1"))
+        test = c.args[1] if len(c.args) > 1 else \
+            kws.get("test_elements", kws.get("ar2"))
+        bad = [k for k in ("assume_unique", "invert")
+               if k in kws and not (isinstance(kws[k], ast.Constant) and
+                                    kws[k].value is False)]
+        if len(c.args) > 2:
+            bad.append("positional assume_unique")
+        ctx.check(rule, sw, "contract of " + norm(c, 60), not bad,
+                  "%s: numpy requires BOTH arrays to be duplicate-free for "
+                  "assume_unique (the queried pixels are not: positions in "
+                  "the same pixel repeat), and invert flips the answer; "
+                  "positions far outside the region are reported inside" %
+                  bad, node=c)
+
+        def from_ang2pix(e, depth=0):
+            if e is None or depth > 6:
+                return None
+            for x in ast.walk(e):
+                if isinstance(x, ast.Call) and prog.dotted(
+                        prog.modules[sw.module], x.func) == "healpy.ang2pix":
+                    return x
+            for x in ast.walk(e):
+                if isinstance(x, ast.Name):
+                    r = _resolve_local(sw.node, x)
+                    if r is not x:
+                        got = from_ang2pix(r, depth + 1)
+                        if got is not None:
+                            return got
+            return None
+        a2p = from_ang2pix(elem)
+        oka = a2p is not None and a2p.args and \
+            norm(a2p.args[0]).replace(" ", "") in (
+                "2**self.maxdepth", "1<<self.maxdepth") and \
+            isinstance(kwarg(a2p, "nest"), ast.Constant) and \
+            kwarg(a2p, "nest").value is True
+        ctx.check(rule, sw, "queried pixels " + (norm(a2p, 70) if a2p
+                                                     else norm(elem)), oka,
+                  "the queried pixel numbers must come from healpy.ang2pix("
+                  "2**self.maxdepth, ..., nest=True): the flattened set "
+                  "holds NESTED pixel numbers of the deepest level",
+                  node=a2p or c)
+        okt = _depends_on_call(sw.node, test, "self", ("get_demoted",))
+        ctx.check(rule, sw, "looked up in " + norm(test, 50), okt,
+                  "the set the pixels are looked up in must be "
+                  "self.get_demoted() (all levels flattened to the deepest)",
+                  node=c)
+        okr = any(isinstance(s_, ast.Assign) and s_.value is c and
+                  norm(s_.targets[0]) == rname
+                  for s_ in walk_no_nested(sw.node)) or \
+            g.stmt[rets[0]].value is c
+        ctx.check(rule, sw, "the look-up is the returned result", okr,
+                  "the value returned by sky_within (%s) is not the "
+                  "result of the look-up" % rname, node=c)
+    ctx.floor(rule, n6, 1, "numpy.isin / in1d look-ups in sky_within")
+
+
+def membership_for(ctx, prog, ci, rule):
+    """membership_rule for callers that have not located sky_within's
+    return themselves"""
+    sw = ci.methods.get("sky_within")
+    if sw is None:
+        raise AnalysisError("Region.sky_within missing")
+    g = CFG(sw.node)
+    rets = [nn for nn, s_ in g.stmt.items() if g.kind[nn] == "return"]
+    if len(rets) != 1:
+        raise AnalysisError(rule + ": sky_within return sites")
+    membership_rule(ctx, prog, sw, g, rets, norm(g.stmt[rets[0]].value),
+                    rule)
